@@ -44,8 +44,11 @@ def build(e, stack, enc_tables, mode='alias', tempdir=None,
     if wrap_sources:
         # the sources reach the recipe as petl Table objects (as in the
         # fluent style: etl.wrap(src).op(...)), not as bare containers
+        # ('cat': as views of a transform class of petl's own - the output
+        # of an earlier pipeline stage handed on as an input)
         w.raw = list(w.s)
-        w.s = [e.wrap(s) for s in w.s]
+        w.s = [e.cat(s) if wrap_sources == 'cat' else e.wrap(s)
+               for s in w.s]
     name, var = stack[0]
     rec = RECIPES[name]
     v = rec.variants[var % len(rec.variants)](e, w)
